@@ -81,7 +81,6 @@ CHECKS["C13"] = dict(
    technique="symbolic fault-point exploration of the real Python source over an environment model (z3-enumerated paths); candidates replayed by monkey-patching the real function at the model's invocation index",
    ref="3/C13")
 CHECKS["C01"] = dict(
-   category="translation_validation",
    text="The Cython kernel (fast_likelihood.pyx, transliterated statement by statement and validated every run against the compiled extension) is executed symbolically together with the real Python around it; z3 decides, at cut points, that the kernel's state and outputs equal the analytic Gaussian marginal: "
         "jitter weights, prior mean/variance slots incl. the capped K-variance rule and unit conversions (symbolic unit scales), Kepler-call wiring, trend rows, the matrices handed to LAPACK (Lambda^-1+M^T W M and W^-1+M Lambda M^T), Binv by Woodbury in the returned inverse, b, chi^2, log-det from the LU diagonal and the returned value, for every data set / prior / sample of the shape. "
         "Five recorded findings of the .pyx are re-derived by the solver, replayed on the compiled kernel and printed as KNOWN-FINDING; all VCs are also proved under their masks (s=0, period prior in days, no custom-K+offsets) so that any other deviation is a VIOLATION. Bounds: <=3 epochs, poly_trend<=2, <=1 offset, <=2 chunk rows (quick).",
@@ -89,7 +88,6 @@ CHECKS["C01"] = dict(
    technique="translation of the .pyx to Python + symbolic execution + z3 (polynomial identities with named reciprocals, UF); sat models replayed on the compiled kernel against a dense numpy oracle",
    ref="3/C01")
 CHECKS["C03"] = dict(
-   category="translation_validation",
    text="likelihood_worker(1) and batch_get_posterior_samples of the transliterated .pyx plus the real make_full_samples_inmem / JokerSamples.unpack run symbolically; z3 decides at cut points that the symmetric system handed to dsysv is Lambda^-1+M^T W M, its right-hand side Lambda^-1 mu + M^T W y, "
         "that rng.multivariate_normal receives exactly that solution as mean, the inverse of the same matrix as covariance and size=n_linear_samples, that each output row is its unchanged nonlinear row followed by its own draw in design order, and that unpack attaches the internal units in that order. "
         "Two recorded .pyx findings (jitter never read; K variance not capped in the posterior pass) are KNOWN-FINDINGs, everything is also proved under their masks. Bounds: <=3 epochs, poly_trend<=2, <=1 offset, <=2 rows, n_linear_samples<=2.",
